@@ -189,6 +189,12 @@ def gen_c03(g, budget, optional=False):
             if side == "hi+const":
                 p2["lo"] = g.rng.randint(1, len(bqlu.INSTANTS))
             second = bqlgen.clause(bqlgen.S(b=g.rng.choice(["?a", "?b"])), p2, bqlgen.O(b=g.rng.choice(["?y", "?x"])))
+            if g.rng.random() < 0.35:
+                # the bounded predicate in the OBJECT position (reification: the object is a temporal predicate)
+                o2 = bqlgen.O(pid=bqlu.sid("p"), bd=True, lo=p2["lo"], hi=p2["hi"], lb=p2["lb"], ub=p2["ub"])
+                if g.rng.random() < 0.5:
+                    o2["as"] = "?y"
+                second = bqlgen.clause(bqlgen.S(b=g.rng.choice(["?a", "?b"])), bqlgen.P(b="?r"), o2)
             cls = [first, second]
         elif r < 0.4:
             cls = [mk(p_alias=0.3)]
